@@ -24,8 +24,10 @@ func init() {
 }
 
 func runC16(c *Ctx) {
+	defer runC16CloseDoesNotRead(c)
 	p := c.P
 	defer runC16NextEnvelopeAfterFlush(c)
+	defer runC16NoUpfrontReadUnlessNeeded(c)
 	defer c.ImportRules("C11", "C11.13")
 	rwT := types.NewPointer(p.MustNamed("responseWriter"))
 	rwFlushMsg := p.MethodOf(rwT, "flushMessage")
@@ -715,5 +717,109 @@ func runC16NextEnvelopeAfterFlush(c *Ctx) {
 	}
 	if n == 0 {
 		c.Bad("C16.6", "envelopingWriter", "next-envelope-state-after-flush", token.NoPos, "no transition back to the 'expecting an envelope' state found outside the initialisation: shape changed")
+	}
+}
+
+// runC16NoUpfrontReadUnlessNeeded: C16.7 (seed C16i).  Normally the backend handler is invoked as
+// soon as the request's head is validated, and request messages are transformed lazily as the
+// handler reads them - that is what lets a handler speak first in a bidi stream.  The one
+// exception is a target whose request LINE is built from the first message (REST, Connect GET):
+// only then may the dispatcher read a message from the client's body before it invokes the
+// handler.  So a read of the client's body in the dispatching function, ahead of the dispatch, is
+// dominated by the true outcome of a condition that derives from nothing but the request-line
+// builder's requiresMessageToProvideRequestLine.
+func runC16NoUpfrontReadUnlessNeeded(c *Ctx) {
+	p := c.P
+	c.Rule("C16.7", "a request message is read ahead of the dispatch only when the target's request line needs it", 1)
+	handle := p.MustFunc("(*operation).handle")
+	rrm := p.MustFunc("(*operation).readRequestMessage")
+	n := 0
+	for _, call := range Calls(handle) {
+		if call.Common().StaticCallee() != rrm {
+			continue
+		}
+		n++
+		ok := false
+		for _, f := range FactsAt(call.Block()) {
+			if !f.Truth {
+				continue
+			}
+			ls := Origins(f.Cond)
+			only := len(ls) > 0
+			fromBuilder := false
+			for _, l := range ls {
+				switch {
+				case l.Kind == "call" && l.Call.Common().IsInvoke() && N(l.Call.Common().Method) == "requiresMessageToProvideRequestLine":
+					fromBuilder = true
+				case l.Kind == "const":
+				default:
+					only = false
+				}
+			}
+			if only && fromBuilder {
+				ok = true
+			}
+		}
+		c.Check(ok, "C16.7", FuncName(handle), "upfront-read-only-for-request-line", call.Pos(),
+			"the read of the first request message ahead of the dispatch is guarded by the request-line builder's answer alone",
+			"the dispatcher reads a request message from the client before it invokes the handler under a condition wider than 'the target's request line is built from the first message': for those requests the handler is no longer entered when the stream opens, and a handler that speaks first deadlocks against a client that waits for it")
+	}
+	if n == 0 {
+		c.OK("C16.7", FuncName(handle), "upfront-read-only-for-request-line", handle.Pos(), "the dispatcher never reads the client's body itself")
+	}
+}
+
+// runC16CloseDoesNotRead: C16.8 (seed C16k).  A handler may finish a stream first: it sends its
+// last message, closes the request body and returns, and only then do the trailers / the
+// end-of-stream frame reach the client - which is what makes a client that is still waiting stop
+// sending.  So Close of a request-body adapter must return promptly: nothing reachable from it
+// reads from the wrapped body (a "drain what the handler left unread, as net/http does" blocks
+// until the client half-closes, which it will not do before it has seen the end of the stream).
+func runC16CloseDoesNotRead(c *Ctx) {
+	p := c.P
+	c.Rule("C16.8", "Close of a request-body adapter never reads from the client's stream", 2)
+	for _, ra := range readerAdapters(p) {
+		pt := types.NewPointer(ra.typ)
+		cl := p.MethodOf(pt, "Close")
+		if cl == nil {
+			continue
+		}
+		bad := ""
+		// reachable from Close, not following the Close of the wrapped body itself (an interface
+		// call that the call graph resolves to every Close in the package)
+		reach := map[*ssa.Function]bool{cl: true}
+		work := []*ssa.Function{cl}
+		for len(work) > 0 {
+			fn := work[0]
+			work = work[1:]
+			for _, call := range Calls(fn) {
+				if call.Common().IsInvoke() && N(call.Common().Method) == "Close" {
+					continue
+				}
+				for _, cal := range p.CalleesAt(call) {
+					if p.inScope(cal) && !reach[cal] {
+						reach[cal] = true
+						work = append(work, cal)
+					}
+				}
+			}
+		}
+		for _, fn := range SortedFuncs(reach) {
+			if !p.inScope(fn) {
+				continue
+			}
+			for _, call := range Calls(fn) {
+				cc := call.Common()
+				if cc.IsInvoke() && N(cc.Method) == "Read" && isNamed(cc.Value.Type(), "io", "Reader") || cc.IsInvoke() && N(cc.Method) == "Read" && isNamed(cc.Value.Type(), "io", "ReadCloser") {
+					bad = p.Pos(call.Pos()) + " (Read)"
+				}
+				if IsCallTo(call, "io.Copy", "io.CopyN", "io.CopyBuffer", "io.ReadAll", "io.ReadFull", "io.ReadAtLeast", "(*bytes.Buffer).ReadFrom") {
+					bad = p.Pos(call.Pos()) + " (" + CalleeName(call) + ")"
+				}
+			}
+		}
+		c.Check(bad == "", "C16.8", FuncName(cl), "close-does-not-read", cl.Pos(),
+			"nothing reachable from Close reads from a stream",
+			"Close of the request-body adapter reads from a stream at "+bad+": draining the client's stream blocks until the client half-closes; a handler that ends a bidi stream first (sends its last message, closes the body, returns) then never gets to deliver the end of the stream, and the client - which waits for it before half-closing - deadlocks with it")
 	}
 }
